@@ -246,7 +246,13 @@ def run_case(case, ctx):
         if case["perm"] is not None:
             W0, F0 = K.weights.copy(), [f.copy() for f in K.factor_matrices]
             p = np.array(case["perm"])
-            ctx.must("ktensor.arrange", K.arrange, permutation=p)
+            # the permutation in the forms callers hold it: array, list, tuple, and a range when it is the identity or the reversal
+            forms = ["array", "list", "tuple"] + (["range"] if list(case["perm"]) in (list(range(R)), list(range(R - 1, -1, -1))) else [])
+            pf = forms[gen.pick(case) % len(forms)]
+            parg = p if pf == "array" else list(case["perm"]) if pf == "list" else tuple(case["perm"]) if pf == "tuple" else \
+                (range(R) if list(case["perm"]) == list(range(R)) else range(R - 1, -1, -1))
+            ctx.feat(perm_form=pf)
+            ctx.must("ktensor.arrange", K.arrange, permutation=parg)
             ok = same(K.weights, W0[p]) and all(same(K.factor_matrices[n], F0[n][:, p]) for n in range(N))
             ctx.check(ok, "ktensor.arrange", "WRONG", "explicit permutation did not permute weights and columns exactly")
             unchanged("ktensor.arrange")
